@@ -463,7 +463,40 @@ def run_construct(ctx, p):
                 '%s(%s, %s) raised %r' % (p['api'], core.short(p['args']), p['kwargs'], e))
 
 
-RUNNERS = {'extract': run_extract, 'class': run_class, 'construct': run_construct}
+def run_roundtrip(ctx, p):
+    """the way a user does it: extract with the library, rebuild with the library -- twice, from the same returned array"""
+    import spatialmath.base as base
+    import spatialmath as sm
+    R = np.asarray(p['R'], dtype=np.float64)
+    which, unit, opts = p['which'], p['unit'], dict(p.get('opts', {}))
+    sig = dict(api='roundtrip.' + which, unit=unit, opts=opts)
+    try:
+        if which == 'rpy':
+            ang = base.tr2rpy(R, unit=unit, **opts)
+            outs = [base.rpy2r(ang, unit=unit, **opts), base.rpy2tr(ang, unit=unit, **opts)[:3, :3], sm.SO3.RPY(ang, unit=unit, **opts).A,
+                    sm.UnitQuaternion.RPY(ang, unit=unit, **opts).R]
+        elif which == 'eul':
+            ang = base.tr2eul(R, unit=unit, **opts)
+            outs = [base.eul2r(ang, unit=unit), base.eul2tr(ang, unit=unit)[:3, :3], sm.SO3.Eul(ang, unit=unit).A, sm.SE3.Eul(ang, unit=unit).R]
+        else:
+            th, v = base.tr2angvec(R, unit=unit)
+            if np.linalg.norm(v) == 0:
+                ctx.ood('extract')
+                return
+            outs = [base.angvec2r(th, v, unit=unit), base.angvec2tr(th, v, unit=unit)[:3, :3], sm.SO3.AngVec(th, v, unit=unit).A,
+                    sm.UnitQuaternion.AngVec(th, v, unit=unit).R]
+    except Exception as e:
+        ctx.bad('extract', dict(sig, kind='raised', exc=type(e).__name__), 'library round trip %s (%s) raised %r' % (which, unit, e))
+        return
+    worst = max(float(np.max(np.abs(np.asarray(o, dtype=np.float64) - R))) for o in outs)
+    k = int(np.argmax([float(np.max(np.abs(np.asarray(o, dtype=np.float64) - R))) for o in outs]))
+    ctx.judge('extract', worst <= TOL, dict(sig, kind='library_roundtrip', which_rebuild=k),
+              lambda: 'extract with tr2%s(unit=%s, %s) then rebuild #%d with the library differs from R by %.3g' % (which, unit, opts, k, worst))
+    ctx.cell('roundtrip', which, unit)
+    ctx.nontrivial('roundtrip', which, unit, sorted(opts.items()), [float('%.9g' % x) for x in R.reshape(-1)])
+
+
+RUNNERS = {'extract': run_extract, 'class': run_class, 'construct': run_construct, 'roundtrip': run_roundtrip}
 
 
 # ----------------------------------------------------------------------------- workload
@@ -514,6 +547,11 @@ def run(ctx):
             ctx.sample(dict(kind='extract', **p))
     for _ in range(ctx.scale(600, 10000)):
         drive(RUNNERS, ctx, 'extract', dict(api='tr2xyt', R=gen.se2(rng), opts={}))
+    for _ in range(ctx.scale(1500, 30000)):
+        which = ['rpy', 'eul', 'angvec'][rng.integers(3)]
+        opts = {'order': onames[rng.integers(6)]} if which == 'rpy' else {}
+        drive(RUNNERS, ctx, 'roundtrip', dict(which=which, unit=['rad', 'deg'][rng.integers(2)], opts=opts,
+                                              R=rotation_for(rng, 'tr2' + which, opts.get('order'))))
     for _ in range(ctx.scale(4000, 80000)):
         k = rng.integers(10)
         if k < 8:
